@@ -115,10 +115,10 @@ def bounded(ctx):
         m.MpiGenerator.generate(p, f"v{i}", f"c{i}", at, size, False, True, None)
         return p
 
-    def run_merge(tag, placements, expect_reject):
+    def run_merge(tag, placements, expect_reject, area=area):
         files = [rec_file(i, at, sz) for i, (at, sz) in enumerate(placements)]
         out = f"{d}/m.hex"
-        case = {"op": "merge", "case": tag, "placements": [[hex(a), s] for a, s in placements]}
+        case = {"op": "merge", "case": tag, "placements": [[hex(a), s] for a, s in placements], "area_size": area}
         B.case(("merge", tag))
         try:
             m.main(mpi="merge", output_file=out, address=base, size=area, file=files)
@@ -143,6 +143,10 @@ def bounded(ctx):
     for k in (1, 2, 3, 8):
         run_merge(f"first-{k}", slots[:k], False)
     run_merge("reversed-order", list(reversed(slots[:5])), False)
+    # reserved sizes that are not a multiple of 4 / 16 / 32 (the digest follows the area IMMEDIATELY, whatever its size)
+    for extra in (1, 2, 3, 5, 17, 33):
+        run_merge(f"area-size-{area + extra}", slots[:2], False, area=area + extra)
+    run_merge("area-of-one-byte-no-records", [], False, area=1)
     run_merge("on-lower-border", [(base, 48)], False)
     run_merge("on-upper-border", [(base + area - 48, 48)], False)
     run_merge("one-byte-below", [(base - 1, 48)], True)
